@@ -31,6 +31,7 @@ AltNameOf(sk)  == IF sk = "named" THEN "TA" ELSE "T"
 KeyOf(sk)      == <<"orig", KeyNameOf(sk)>>
 SOf(sk)        == Nm("orig", KeyNameOf(sk))      \* the replaceable type as spelled in the source
 SaltOf(sk)     == Nm("orig", AltNameOf(sk))      \* the same type under its other spelling
+ThirdAlias     == Nm("third", "H")               \* `type H = orig.T` declared in a third package, never configured
 UT             == Nm("orig", "U")                \* another type of the original package
 TwinOf(sk)     == Nm("same", KeyNameOf(sk))      \* same type NAME in another package (which also has the orig's package name)
 ToOf(tg) == CASE tg = "named"    -> Nm("alt", "R")
@@ -54,6 +55,7 @@ M1Params(p, sk) ==
     [] p = "func"      -> <<Prm("f", Func(S))>>
     [] p = "mixed"     -> <<Prm("x", S), Prm("p", Ptr(S))>>
     [] p = "viaalias"  -> <<Prm("x", SaltOf(sk))>>
+    [] p = "viathird"  -> <<Prm("h", ThirdAlias)>>
 M1Results(p, sk) ==
   LET S == SOf(sk) IN
   CASE p = "param"  -> <<Bas("error")>>
@@ -62,6 +64,8 @@ M1Results(p, sk) ==
     [] p = "ptr"    -> <<Ptr(S)>>
     [] p = "slice"  -> <<Slice(S)>>
     [] p = "mixed"  -> <<S>>
+    [] p = "viaalias" -> <<SaltOf(sk)>>
+    [] p = "viathird" -> <<ThirdAlias, Bas("error")>>
     [] OTHER        -> << >>
 
 \* an extra parameter goes in front, or at the end but never after a variadic parameter
@@ -112,13 +116,15 @@ Covered(mk, lv) ==
   \/ lv = "entry2" /\ mk.entry = "e1"
 
 \* a choice fixes what the documentation leaves open: the constructor kinds through which the
-\* replacement descends, and whether the other spelling (alias/named) of the same type is replaced too
-Choices == [desc : SUBSET NestKinds, alias : BOOLEAN]
+\* replacement descends.  A replaceable type is identified by (package path, name): a parameter spelled with
+\* ANOTHER name of the same type (the alias when the named type is configured, the named type when the alias is,
+\* an alias in a third package) has no entry of its own and is one of "all other parameters": unchanged.
+Choices == [desc : SUBSET NestKinds]
 
 RECURSIVE Sub(_, _, _, _)
 Sub(t, ch, sk, to) ==
   IF t.k = "named"
-  THEN IF <<t.p, t.n>> = KeyOf(sk) \/ (ch.alias /\ t = SaltOf(sk)) THEN to ELSE t
+  THEN IF <<t.p, t.n>> = KeyOf(sk) THEN to ELSE t
   ELSE IF t.k = "basic" THEN t
   ELSE IF t.k \in ch.desc THEN [t EXCEPT !.a = [i \in DOMAIN t.a |-> Sub(t.a[i], ch, sk, to)]]
   ELSE t
@@ -144,7 +150,7 @@ Refs(t) == IF t.k = "named" THEN {t.p}
 
 MethodRefs(rm) == UNION ({Refs(rm.params[i]) : i \in DOMAIN rm.params} \cup {Refs(rm.results[i]) : i \in DOMAIN rm.results})
 
-Universe == {"orig", "alt", "same", "dst"}
+Universe == {"orig", "alt", "same", "dst", "third"}
 
 \* rendered mocks -> outcome with the import contract:
 \*   every package a rendered signature refers to is imported, except the file's own package;
@@ -166,14 +172,49 @@ KindsIn(p) == CASE p = "variadic" -> {"variadic"}
                 [] p = "ptr"   -> {"ptr"}   [] p = "slice" -> {"slice"} [] p = "map" -> {"map"}
                 [] p = "chan"  -> {"chan"}  [] p = "func"  -> {"func"}  [] p = "mixed" -> {"ptr"}
                 [] OTHER -> {}
-RelevantChoices(p) == {ch \in Choices : ch.desc \subseteq KindsIn(p) /\ (ch.alias => p = "viaalias")}
+RelevantChoices(p) == {ch \in Choices : ch.desc \subseteq KindsIn(p)}
 
 Accept(p, o, sk, tg, lv) == {Outcome(RenderAll(p, o, sk, tg, lv, ch, TRUE)) : ch \in RelevantChoices(p)}
-NoChoice == [desc |-> {}, alias |-> FALSE]
+NoChoice == [desc |-> {}]
 Base(p, o, sk, tg, lv) == Outcome(RenderAll(p, o, sk, tg, lv, NoChoice, FALSE))   \* the same world without the setting
 
 \* positions the contract REQUIRES to change (vacuity / "the setting had an effect")
 MustChange(p, o, sk, tg, lv) ==
   \A oc \in Accept(p, o, sk, tg, lv) : oc.mocks # Base(p, o, sk, tg, lv).mocks
 
+
+-----------------------------------------------------------------------------
+(* No-leak family: "the setting has this effect at whichever level it is written -- and ONLY there".
+   Three source packages whose interface I mentions two types of the original package,
+       M(x orig.T, u orig.U) (orig.T, orig.U)
+   R (recursive: true), Rin (a sub-package of R, listed under `packages:` or only discovered) and S (an
+   unrelated sibling).  A config WRITES a set of <<level, key>> pairs: replace-type entries for T (-> alt.R)
+   and/or U (-> alt.R2) at the top level and at package level.
+   What the property fixes, whatever the merge of a map-valued parameter means (key by key, or the most
+   specific map as a whole):
+     - a key no level on the package's chain defines stays UNCHANGED there (no leak from siblings / children);
+     - a key defined by the most specific level of the chain that carries any replace-type is REPLACED;
+     - otherwise (defined higher up, a more specific level carries only the other key) it is left open. *)
+LPkgs   == {"R", "Rin", "S"}
+LLevels == {"root", "R", "Rin", "S"}
+LKeys   == {"T", "U"}
+LChain(p) == CASE p = "S" -> <<"root", "S">> [] p = "R" -> <<"root", "R">> [] p = "Rin" -> <<"root", "R", "Rin">>
+LOrig(k) == Nm("orig", k)
+LTo(k)   == IF k = "T" THEN Nm("alt", "R") ELSE Nm("alt", "R2")
+LMax(S)  == CHOOSE x \in S : \A y \in S : y <= x
+LStatus(w, p, k) ==
+  LET ch   == LChain(p)
+      defs == {i \in DOMAIN ch : <<ch[i], k>> \in w}
+      any  == {i \in DOMAIN ch : \E k2 \in LKeys : <<ch[i], k2>> \in w}
+  IN IF defs = {} THEN "unchanged" ELSE IF LMax(any) \in defs THEN "replaced" ELSE "open"
+\* c : key -> BOOLEAN (replaced?)
+LMock(c) ==
+  LET ty(k) == IF c[k] THEN LTo(k) ELSE LOrig(k) IN
+  <<[struct |-> "MockI", iface |-> "I",
+     methods |-> <<[name |-> "M", params |-> <<ty("T"), ty("U")>>, results |-> <<ty("T"), ty("U")>>, variadic |-> FALSE],
+                   [name |-> "Z", params |-> <<Bas("string")>>, results |-> <<Bas("int")>>, variadic |-> FALSE]>>]>>
+LAccept(w, p) ==
+  {Outcome(LMock(c)) : c \in {c \in [LKeys -> BOOLEAN] :
+       \A k \in LKeys : (LStatus(w, p, k) = "unchanged" => ~c[k]) /\ (LStatus(w, p, k) = "replaced" => c[k])}}
+LBase == Outcome(LMock([k \in LKeys |-> FALSE]))
 =============================================================================
